@@ -221,6 +221,8 @@ class Scheduler:
             if self.n_points > self.max_points:
                 self.deadlock = dict(livelock=True, points=self.n_points)
                 self.aborting = True
+                for o in self.by_name.values():   # release every parked thread (they abort at their scheduling point)
+                    o.go = True
                 self.cv.notify_all()
                 if t.is_user:
                     raise LogicalDeadlock(str(self.deadlock))
